@@ -1,6 +1,7 @@
 import TlsProofs.Codec
 import TlsProofs.CodecLoop
 import TlsProofs.Ssl2
+import TlsProofs.GenCodec
 import TlsModel.Msgs
 /-
   C15 — every message and extension codec round-trips and enforces its framing exactly.
@@ -291,6 +292,257 @@ example : (Parser.lcList (Parser.liftDecode (decode (varBytes 1) 0)) 1 (Parser.n
     (fun (v, p') => (v, p'.index)) = .ok (.cons (.bytes [7]) (.cons (.bytes [8]) .nil), 5) := by decide
 example : ∃ e, Parser.lcList (Parser.liftDecode (decode (varBytes 1) 0)) 1 (Parser.new [3, 1, 7, 1, 8, 9]) =
     .error e := ⟨.readPast, by decide⟩
+
+/-! ## the regenerated source: tlslite/utils/codec.py as it is now computes the hand model
+
+  `Tls.Codec.Gen.*` (TlsModel/Gen/Codec.lean) is re-translated statement by statement from
+  codec.py and messages.py on every run (translate/gen_codec.py) into the Python-runtime model
+  TlsModel/PyInt.lean + PyObj.lean.  Each `gen_*_eq` says the regenerated method equals the hand
+  model's primitive on every state and all natural-number arguments (negative ints are outside the
+  model), so the theorems above are theorems about the current source text; an edit of the method
+  changes the generated module and breaks its obligation, an unknown construct becomes poison
+  (`Exc.other`) which no right-hand side produces. -/
+
+theorem gen_Writer_add_eq (w : Writer) (x n : Nat) :
+    Gen.Writer_add ⟨w⟩ x n = liftW (Writer.add w x n) := Codec.gen_Writer_add_eq w x n
+theorem gen_Writer_addOne_eq (w : Writer) (x : Nat) :
+    Gen.Writer_addOne ⟨w⟩ x = liftW (Writer.addOne w x) := Codec.gen_Writer_addOne_eq w x
+theorem gen_Writer_addTwo_eq (w : Writer) (x : Nat) :
+    Gen.Writer_addTwo ⟨w⟩ x = liftW (Writer.addTwo w x) := Codec.gen_Writer_addTwo_eq w x
+theorem gen_Writer_addThree_eq (w : Writer) (x : Nat) :
+    Gen.Writer_addThree ⟨w⟩ x = liftW (Writer.addThree w x) := Codec.gen_Writer_addThree_eq w x
+theorem gen_Writer_addFour_eq (w : Writer) (x : Nat) :
+    Gen.Writer_addFour ⟨w⟩ x = liftW (Writer.addFour w x) := Codec.gen_Writer_addFour_eq w x
+theorem gen_Writer_addFixSeq_eq (w : Writer) (seq : List Nat) (n : Nat) :
+    Gen.Writer_addFixSeq ⟨w⟩ (seq.map fun (k : Nat) => (k : Int)) n = liftW (Writer.addFixSeq w seq n) :=
+  Codec.gen_Writer_addFixSeq_eq w seq n
+theorem gen_Writer_addVarSeq_eq (w : Writer) (seq : List Nat) (n ll : Nat) :
+    Gen.Writer_addVarSeq ⟨w⟩ (seq.map fun (k : Nat) => (k : Int)) n ll = liftW (Writer.addVarSeq w seq n ll) :=
+  Codec.gen_Writer_addVarSeq_eq w seq n ll
+theorem gen_Writer_add_var_bytes_eq (w : Writer) (d : Bytes) (ll : Nat) :
+    Gen.Writer_add_var_bytes ⟨w⟩ d ll = liftW (Writer.addVarBytes w d ll) := Codec.gen_Writer_add_var_bytes_eq w d ll
+theorem gen_Parser_getFixBytes_eq (p : Parser) (n : Nat) :
+    Gen.Parser_getFixBytes (toGen p) n = liftP id (Parser.getFixBytes p n) := Codec.gen_Parser_getFixBytes_eq p n
+theorem gen_Parser_get_eq (p : Parser) (n : Nat) :
+    Gen.Parser_get (toGen p) n = liftP (fun (x : Nat) => (x : Int)) (Parser.get p n) := Codec.gen_Parser_get_eq p n
+theorem gen_Parser_skip_bytes_eq (p : Parser) (n : Nat) :
+    Gen.Parser_skip_bytes (toGen p) n =
+      (match Parser.skipBytes p n with | .ok p' => .ok (toGen p') | .error e => .error (excOfP e)) :=
+  Codec.gen_Parser_skip_bytes_eq p n
+theorem gen_Parser_getVarBytes_eq (p : Parser) (ll : Nat) :
+    Gen.Parser_getVarBytes (toGen p) ll = liftP id (Parser.getVarBytes p ll) := Codec.gen_Parser_getVarBytes_eq p ll
+theorem gen_Parser_getFixList_eq (p : Parser) (n k : Nat) :
+    Gen.Parser_getFixList (toGen p) n k =
+      liftP (fun (xs : List Nat) => xs.map fun (x : Nat) => (x : Int)) (Parser.getFixList p n k) :=
+  Codec.gen_Parser_getFixList_eq p n k
+theorem gen_Parser_getVarList_eq (p : Parser) (n ll : Nat) :
+    Gen.Parser_getVarList (toGen p) n ll =
+      liftP (fun (xs : List Nat) => xs.map fun (x : Nat) => (x : Int)) (Parser.getVarList p n ll) :=
+  Codec.gen_Parser_getVarList_eq p n ll
+theorem gen_Parser_startLengthCheck_eq (p : Parser) (ll : Nat) :
+    Gen.Parser_startLengthCheck (toGen p) ll =
+      (match Parser.startLengthCheck p ll with | .ok p' => .ok (toGen p') | .error e => .error (excOfP e)) :=
+  Codec.gen_Parser_startLengthCheck_eq p ll
+theorem gen_Parser_setLengthCheck_eq (p : Parser) (n : Nat) :
+    Gen.Parser_setLengthCheck (toGen p) n = .ok (toGen (Parser.setLengthCheck p n)) :=
+  Codec.gen_Parser_setLengthCheck_eq p n
+theorem gen_Parser_stopLengthCheck_eq (p : Parser) :
+    Gen.Parser_stopLengthCheck (toGen p) =
+      (match Parser.stopLengthCheck p with | .ok () => .ok (toGen p) | .error e => .error (excOfP e)) :=
+  Codec.gen_Parser_stopLengthCheck_eq p
+theorem gen_Parser_atLengthCheck_eq (p : Parser) :
+    Gen.Parser_atLengthCheck (toGen p) =
+      (match Parser.atLengthCheck p with | .ok b => .ok (b, toGen p) | .error e => .error (excOfP e)) :=
+  Codec.gen_Parser_atLengthCheck_eq p
+theorem gen_Parser_getRemainingLength_eq (p : Parser) (hinv : p.inv) :
+    Gen.Parser_getRemainingLength (toGen p) = .ok ((Parser.getRemainingLength p : Int), toGen p) :=
+  Codec.gen_Parser_getRemainingLength_eq p hinv
+
+/-- `HandshakeMsg.postWrite` as the source has it: type byte, 24-bit length, body — or ValueError;
+    the length never spills into the type byte -/
+theorem gen_postWrite_eq (t : Nat) (body : Bytes) :
+    Gen.HandshakeMsg_postWrite t ⟨body⟩ =
+      if t < 256 then
+        (match encode (.lenPref 3 .rest) 0 (.bytes body) with
+         | some b => .ok (beEncode 1 t ++ b)
+         | none => .error .valueError)
+      else .error .valueError := Codec.gen_postWrite_eq t body
+
+/-- the translator understood every statement of the methods it translates -/
+theorem gen_no_poison : Gen.poisonNotes = [] := by decide
+
+-- the two methods tied by evaluation and correspondence only (no general equality proved yet)
+example : Gen.Writer_addVarTupleSeq ⟨[]⟩ [[1, 2], [3, 4]] 1 1 = .ok ⟨[4, 1, 2, 3, 4]⟩ := by decide
+example : Gen.Writer_addVarTupleSeq ⟨[]⟩ [[1, 2], [3]] 1 1 = .error .valueError := by decide
+example : Gen.Writer_addVarTupleSeq ⟨[]⟩ [[1, 256]] 1 1 = .error .valueError := by decide
+example : (Gen.Parser_getVarTupleList ⟨[4, 1, 2, 3, 4, 9], 0, 0, 0⟩ 1 2 1).map (fun r => (r.1, r.2.index)) =
+    .ok ([[1, 2], [3, 4]], 5) := by decide
+example : Gen.Parser_getVarTupleList ⟨[3, 1, 2, 3], 0, 0, 0⟩ 1 2 1 = .error .decodeError := by decide
+example : Gen.Parser_getVarList ⟨[3, 1, 2, 3], 0, 0, 0⟩ 2 1 = .error .decodeError := by decide
+example : Gen.HandshakeMsg_postWrite 20 ⟨[1, 2]⟩ = .ok [20, 0, 0, 2, 1, 2] := by decide
+
+/-! ### corollaries: the framing theorems as statements about the regenerated methods -/
+
+/-- `Writer.add` of the current source raises ValueError exactly when the value needs more than `n`
+    bytes, and otherwise appends `n` bytes (never a masked value) -/
+theorem gen_writer_add_overflow (w : Writer) (x n : Nat) :
+    (Gen.Writer_add ⟨w⟩ x n = .error .valueError ↔ 256 ^ n ≤ x) ∧
+    (∀ w', Gen.Writer_add ⟨w⟩ x n = .ok w' ↔ x < 256 ^ n ∧ w' = ⟨w ++ beEncode n x⟩) := by
+  rw [gen_Writer_add_eq]
+  simp only [Writer.add, liftW]
+  by_cases h : x < 256 ^ n
+  · simp [h]; exact fun w' => ⟨fun e => e.symm, fun e => e.symm⟩
+  · simp [h, excOfW]; omega
+
+/-- `Parser.get` of the current source never reads past the buffer -/
+theorem gen_parser_get_bounds (p : Parser) (n : Nat) :
+    (∀ x p', Gen.Parser_get (toGen p) n = .ok (x, p') →
+      p'.index = p.index + n ∧ p'.index ≤ p.bytes.length ∧ p'.bytes = p.bytes ∧ 0 ≤ x ∧ x.toNat < 256 ^ n) ∧
+    (Gen.Parser_get (toGen p) n = .error .decodeError ↔ p.bytes.length < p.index + n) := by
+  rw [gen_Parser_get_eq]
+  constructor
+  · intro x p' h
+    cases hg : Parser.get p n with
+    | error e => rw [hg] at h; simp [liftP] at h
+    | ok q =>
+      obtain ⟨y, q'⟩ := q
+      rw [hg] at h
+      simp only [liftP, Except.ok.injEq, Prod.mk.injEq] at h
+      obtain ⟨rfl, rfl⟩ := h
+      obtain ⟨a1, a2, a3, a4, _⟩ := (parser_get_bounds p n).1 y q' hg
+      have e1 : (toGen q').index = (p.index : Int) + (n : Int) := by
+        show ((q'.index : Nat) : Int) = _
+        rw [a1]; norm_cast
+      have e2 : (toGen q').index ≤ (p.bytes.length : Int) := by
+        show ((q'.index : Nat) : Int) ≤ _
+        exact_mod_cast a2
+      have e3 : (toGen q').bytes = p.bytes := a3
+      have e4 : (0 : Int) ≤ (y : Int) := by omega
+      have e5 : ((y : Int)).toNat < 256 ^ n := by rw [Int.toNat_natCast]; exact a4
+      exact ⟨e1, e2, e3, e4, e5⟩
+  · cases hg : Parser.get p n with
+    | error e =>
+      have := ((parser_get_bounds p n).2 e).mp hg
+      simp [liftP, excOfP, this.2, this.1]
+    | ok q =>
+      obtain ⟨y, q'⟩ := q
+      have := (Parser.get_ok_iff _ _ _ _).mp hg
+      simp [liftP]; omega
+
+/-- parse (serialise x) = x for the integer field as the source writes and reads it -/
+theorem gen_decode_encode_uint (x n : Nat) (r : Bytes) (b : Bytes)
+    (h : Gen.Writer_add ⟨[]⟩ x n = .ok ⟨b⟩) :
+    Gen.Parser_get ⟨b ++ r, 0, 0, 0⟩ n = .ok ((x : Int), ⟨b ++ r, n, 0, 0⟩) := by
+  obtain ⟨hx, hb⟩ := ((gen_writer_add_overflow [] x n).2 ⟨b⟩).mp h
+  simp only [List.nil_append, PyO.Writer.mk.injEq] at hb
+  subst hb
+  have := gen_Parser_get_eq (Parser.new (beEncode n x ++ r)) n
+  simp only [toGen, Parser.new] at this
+  rw [show ((0 : Nat) : Int) = 0 from rfl] at this
+  rw [this, Parser.get]
+  have hl := beEncode_length n x
+  have hn : ¬ n + r.length < n := by omega
+  simp [Parser.getFixBytes, hl, hn, bind, Except.bind, liftP, toGen, take_append_len _ _ _ hl, beDecode_beEncode n x hx]
+
+/-- `add_var_bytes` of the current source fails exactly when the data is too long for its length
+    field (never truncates) … -/
+theorem gen_encode_none_iff_overflow_varBytes (w : Writer) (d : Bytes) (ll : Nat) :
+    Gen.Writer_add_var_bytes ⟨w⟩ d ll = .error .valueError ↔ 256 ^ ll ≤ d.length := by
+  rw [gen_Writer_add_var_bytes_eq, writer_addVarBytes_is_encode]
+  simp only [encode, bind, Option.bind, liftW]
+  by_cases h : d.length < 256 ^ ll
+  · simp [h]
+  · simp [h, excOfW]; omega
+
+/-- … and `getVarBytes` of the current source reads back exactly what `add_var_bytes` wrote,
+    leaving the read position right behind it … -/
+theorem gen_decode_encode_varBytes (d r : Bytes) (ll : Nat) (b : Bytes)
+    (h : Gen.Writer_add_var_bytes ⟨[]⟩ d ll = .ok ⟨b⟩) :
+    Gen.Parser_getVarBytes ⟨b ++ r, 0, 0, 0⟩ ll = .ok (d, ⟨b ++ r, b.length, 0, 0⟩) := by
+  rw [gen_Writer_add_var_bytes_eq, writer_addVarBytes_is_encode] at h
+  cases he : encode (varBytes ll) 0 (.bytes d) with
+  | none => rw [he] at h; simp [liftW] at h
+  | some e =>
+    rw [he] at h
+    simp only [liftW, List.nil_append, Except.ok.injEq, PyO.Writer.mk.injEq] at h
+    subst h
+    have hdec := decode_encode (varBytes ll) (by simp [varBytes, wf]) 0 (.bytes d) e r he
+    have hp := parser_getVarBytes_is_decode (Parser.new (e ++ r)) ll (by simp [Parser.inv, Parser.new])
+    simp only [Parser.remaining, Parser.new, List.drop_zero] at hp
+    rw [hdec] at hp
+    have hg := gen_Parser_getVarBytes_eq (Parser.new (e ++ r)) ll
+    simp only [toGen, Parser.new] at hg
+    rw [show ((0 : Nat) : Int) = 0 from rfl] at hg
+    rw [hg]
+    cases hv : Parser.getVarBytes ⟨e ++ r, 0, 0, 0⟩ ll with
+    | error er => rw [hv] at hp; simp [Except.toOption] at hp
+    | ok q =>
+      obtain ⟨d', p'⟩ := q
+      rw [hv] at hp
+      simp only [Except.toOption, Option.map_some, Option.some.injEq, Prod.mk.injEq, Val.bytes.injEq] at hp
+      obtain ⟨rfl, hrem⟩ := hp
+      obtain ⟨_, _, _, rfl⟩ := (Parser.getVarBytes_ok_iff _ _ _ _).mp hv
+      simp only [liftP, id, toGen, Except.ok.injEq, Prod.mk.injEq, true_and, PyO.Parser.mk.injEq, and_true]
+      simp only [Parser.remaining] at hrem
+      have hlen := congrArg List.length hrem
+      simp only [List.length_drop, List.length_append] at hlen
+      have hle : 0 + ll + beDecode ((List.drop 0 (e ++ r)).take ll) ≤ (e ++ r).length := by
+        obtain ⟨_, h2, _, _⟩ := (Parser.getVarBytes_ok_iff _ _ _ _).mp hv
+        simpa using h2
+      simp only [List.length_append] at hle
+      omega
+
+/-- … while every truncation of what `add_var_bytes` wrote makes `getVarBytes` raise DecodeError -/
+theorem gen_decode_truncated_varBytes (d : Bytes) (ll : Nat) (b : Bytes) (k : Nat)
+    (h : Gen.Writer_add_var_bytes ⟨[]⟩ d ll = .ok ⟨b⟩) (hk : k < b.length) :
+    Gen.Parser_getVarBytes ⟨b.take k, 0, 0, 0⟩ ll = .error .decodeError := by
+  rw [gen_Writer_add_var_bytes_eq, writer_addVarBytes_is_encode] at h
+  cases he : encode (varBytes ll) 0 (.bytes d) with
+  | none => rw [he] at h; simp [liftW] at h
+  | some e =>
+    rw [he] at h
+    simp only [liftW, List.nil_append, Except.ok.injEq, PyO.Writer.mk.injEq] at h
+    subst h
+    obtain ⟨er, hdec⟩ := decode_truncated (varBytes ll) (by simp [varBytes, wf]) 0 (.bytes d) e he k hk
+    have hp := parser_getVarBytes_is_decode (Parser.new (e.take k)) ll (by simp [Parser.inv, Parser.new])
+    simp only [Parser.remaining, Parser.new, List.drop_zero] at hp
+    rw [hdec] at hp
+    have hg := gen_Parser_getVarBytes_eq (Parser.new (e.take k)) ll
+    simp only [toGen, Parser.new] at hg
+    rw [show ((0 : Nat) : Int) = 0 from rfl] at hg
+    rw [hg]
+    cases hv : Parser.getVarBytes ⟨e.take k, 0, 0, 0⟩ ll with
+    | ok q => rw [hv] at hp; simp [Except.toOption] at hp
+    | error er2 =>
+      unfold Parser.getVarBytes at hv
+      simp only [bind, Except.bind] at hv
+      cases hget : Parser.get ⟨e.take k, 0, 0, 0⟩ ll with
+      | error e3 =>
+        have := ((parser_get_bounds _ ll).2 e3).mp hget
+        rw [hget] at hv
+        simp only [Except.error.injEq] at hv
+        subst hv
+        simp [liftP, excOfP, this.2]
+      | ok q =>
+        obtain ⟨x, p1⟩ := q
+        rw [hget] at hv
+        have := (Parser.getFixBytes_error_iff _ _ _).mp hv
+        simp [liftP, excOfP, this.2]
+
+/-- The list idiom `startLengthCheck(ll); while not atLengthCheck(): item; stopLengthCheck()` is made of
+    exactly the three regenerated methods, and accepts what the generic `list ll f` accepts -/
+theorem gen_lengthCheck_loop_is_list (f : Fmt) (hw : wf false f = true) (hm : 0 < minLen f)
+    (t ll : Nat) (p : Parser) (hinv : p.inv) :
+    (∀ q (n : Nat), Gen.Parser_startLengthCheck (toGen q) n =
+      (match Parser.startLengthCheck q n with | .ok p' => .ok (toGen p') | .error e => .error (excOfP e))) ∧
+    (∀ q, Gen.Parser_atLengthCheck (toGen q) =
+      (match Parser.atLengthCheck q with | .ok b => .ok (b, toGen q) | .error e => .error (excOfP e))) ∧
+    (∀ q, Gen.Parser_stopLengthCheck (toGen q) =
+      (match Parser.stopLengthCheck q with | .ok () => .ok (toGen q) | .error e => .error (excOfP e))) ∧
+    (Parser.lcList (Parser.liftDecode (decode f t)) ll p).toOption.map (fun (v, p') => (v, p'.remaining)) =
+      (decode (list ll f) t p.remaining).toOption :=
+  ⟨fun q n => gen_Parser_startLengthCheck_eq q n, fun q => gen_Parser_atLengthCheck_eq q,
+   fun q => gen_Parser_stopLengthCheck_eq q, parser_lengthCheck_loop_is_list f hw hm t ll p hinv⟩
 
 /-! ## SSLv2-framed structures (lengths grouped in front of the data; outside the `Fmt` language) -/
 
